@@ -43,6 +43,62 @@ def cases(tier, seed):
             b['max_levels'], b['max_leaves'], min_leaves=2)):
         yield {'L': L, 'shape': shape, 'scheme': 'BDE'[si % 3],
                'n_cells': b['n_cells'], 'seed': seed, 'tier': tier}
+        if si % 3 == 0 or tier == 'thorough':
+            yield {'kind': 'bigcsc', 'L': L, 'shape': shape,
+                   'scheme': 'BDE'[si % 3], 'seed': seed}
+
+
+def evaluate_big_csc(case, scratch):
+    """more stored entries than the enforced minimum block of the CSC to
+    CSR transcription (100), at the minimum memory budget: a cell's vector
+    must not depend on where the block boundaries fall"""
+    n = 16
+    spec = {'L': case['L'], 'shape': case['shape'], 'scheme': case['scheme'],
+            'n_cells': n, 'seed': case['seed'], 'marker_mode': 'full'}
+    b = scenario.build(spec, scratch.new_dir('in') / 'in')
+    cfg0 = {'factor': 1.0, 'iterations': 1, 'chunk_size': 5,
+            'n_processors': 2}
+    base = scenario.run_mapping(b, cfg0, scratch.new_dir('base'))
+    shape_s = domains.shape_str(scenario._as_shape(case['shape']))
+    if not (base.ok and base.blob and 'results' in base.blob):
+        return {'violations': [{'key': 'base-run-failed',
+                                'msg': f'{shape_s}: {base.error}'}]}
+    frag = mapcheck.fragile_cells(b, base.config)
+    levels = b.model['hierarchy']
+    violations = []
+    keys = []
+    runs = 1
+    rows_list = [list(range(n)), list(range(n))[::-1],
+                 list(range(5, n)) + list(range(5)), list(range(0, n, 2)),
+                 list(range(n // 2)), list(range(n // 2, n))]
+    for ri, rows in enumerate(rows_list):
+        for max_gb in (1e-9, 10):
+            ids = [b.cell_ids[r] for r in rows]
+            q = scenario.write_query(b, 'raw', 'csc',
+                                     name=f'big_{ri}.h5ad',
+                                     matrix=b.raw[rows, :], ids=ids)
+            r = scenario.run_mapping(
+                b, dict(cfg0, encoding='csc', max_gb=max_gb),
+                scratch.new_dir('r'), query_path=q)
+            runs += 1
+            desc = (f'{shape_s} CSC query of {len(rows)} cells (rows '
+                    f'{rows}) max_gb={max_gb}')
+            if not (r.ok and r.blob and 'results' in r.blob):
+                violations.append({'key': 'perturbed-run-failed',
+                                   'msg': f'{desc}: {r.error}'})
+                continue
+            for dmsg in mapcheck.compare_results(
+                    base.blob['results'], r.blob['results'], levels,
+                    tol=1e-9, skip=frag)[:2]:
+                violations.append({
+                    'key': 'depends-on-other-cells:csc-blocks',
+                    'msg': f'{desc}: {dmsg}'})
+            keys.append(desc)
+    return {'violations': violations[:20], 'keys': keys,
+            'outcomes': ['bigcsc'], 'evaluations': runs,
+            'sample': {'shape': shape_s, 'kind': 'CSC query with > 100 '
+                       'stored entries at the minimum budget',
+                       'stored_entries': int((b.raw != 0).sum())}}
 
 
 def perturbations(n, tier):
@@ -65,6 +121,13 @@ def perturbations(n, tier):
                                             'n_processors': npr})
     for enc in ('csr', 'csc'):
         yield ('encoding', base_rows, {}, {'encoding': enc})
+    # levels inferred for the run (drop / flatten): the inferred record of a
+    # cell must come from that cell
+    for red in ({'drop_level': 0}, {'flatten': True}):
+        for perm in list(itertools.permutations(base_rows))[1::5]:
+            yield ('perm+reduce', list(perm), {}, dict(red))
+        for sub in itertools.combinations(base_rows, max(1, n - 2)):
+            yield ('subset+reduce', list(sub), {}, dict(red))
     if tier == 'thorough':
         for perm in itertools.permutations(base_rows):
             for cs in (1, 2, n):
@@ -73,6 +136,8 @@ def perturbations(n, tier):
 
 
 def evaluate(case, scratch):
+    if case.get('kind') == 'bigcsc':
+        return evaluate_big_csc(case, scratch)
     n = case['n_cells']
     spec = {'L': case['L'], 'shape': case['shape'], 'scheme': case['scheme'],
             'n_cells': n, 'seed': case['seed'], 'marker_mode': 'full',
@@ -96,6 +161,7 @@ def evaluate(case, scratch):
                                'msg': f'{shape_s}: {base.error}\n{base.tb}'})
             continue
         levels = b.model['hierarchy']
+        base_by_red = {}
         frag = mapcheck.fragile_cells(b, base.config)
         base_res = base.blob['results']
         # identical vectors get identical results
@@ -129,6 +195,23 @@ def evaluate(case, scratch):
                     matrix=matrix[rows, :], ids=ids)
             c = dict(cfg0)
             c.update(cfg)
+            red_key = (c.get('drop_level'), c.get('flatten', False))
+            if red_key != (None, False):
+                if case['L'] < 2:
+                    continue
+                if red_key not in base_by_red:
+                    rb = scenario.run_mapping(
+                        b, dict(cfg0, drop_level=c.get('drop_level'),
+                                flatten=c.get('flatten', False)),
+                        scratch.new_dir('baser'))
+                    n_runs += 1
+                    base_by_red[red_key] = rb.blob['results'] if (
+                        rb.ok and rb.blob and 'results' in rb.blob) else None
+                this_base = base_by_red[red_key]
+                if this_base is None:
+                    continue
+            else:
+                this_base = base_res
             if label == 'chunk' and pi % 5 == 0:
                 r = mapcheck.run_direct(b, c, run_dir, query_path=qpath)
                 from mc import common
@@ -150,7 +233,7 @@ def evaluate(case, scratch):
                 # backfilled levels; all levels are voted here
                 pass
             diffs = mapcheck.compare_results(
-                base_res, res, cmp_levels, tol=1e-9, skip=frag,
+                this_base, res, cmp_levels, tol=1e-9, skip=frag,
                 rename=rename)
             got_ids = [x['cell_id'] for x in res]
             if got_ids != ids:
